@@ -57,6 +57,7 @@ static std::vector<CycleInfo> walkReports(const Trace& t, const Analysis& A) {
 		const bool cycle = w.type == WT_OP && (w.code == OP_UPDATE || w.code == OP_REACT);
 		CycleInfo ci; ci.valid = cycle && w.complete && !w.aborted;
 		bool stepDone = false, outcomeCleared = false;
+		int exitPending = -1;   // state whose exit delivery is in progress: its reports are discarded once the delivery (state, then injections, with their actions) is over
 		if (w.type == WT_OP && (w.code == OP_SUCCEED || w.code == OP_FAIL)) {
 			const Ev& b = t.ev[w.b];
 			if (w.code == OP_SUCCEED) { r.succS |= bit(b.a); r.succP |= bit(b.a); } else { r.failS |= bit(b.a); r.failP |= bit(b.a); }
@@ -66,6 +67,11 @@ static std::vector<CycleInfo> walkReports(const Trace& t, const Analysis& A) {
 		for (uint32_t i = w.b; i < w.e; ++i) {
 			const Ev& e = t.ev[i];
 			if (e.inst != w.inst) continue;
+			if (exitPending >= 0) {
+				const bool sameDelivery = (e.kind == EV_CB && e.method == M_EXIT && e.state == uint8_t(exitPending)) || e.kind == EV_ACT || e.kind == EV_LOG ||
+					(e.kind == EV_NOTE && (e.method == NOTE_AFTER || e.method == NOTE_APPEND_RESULT));
+				if (!sameDelivery) { r.succS &= ~bit(uint8_t(exitPending)); r.failS &= ~bit(uint8_t(exitPending)); exitPending = -1; }
+			}
 			if (cycle && !stepDone && i >= w.phaseEnd) {
 				stepDone = true;
 				ci.atPlanStep = r; ci.everAppended = r.everAppended;
@@ -96,11 +102,12 @@ static std::vector<CycleInfo> walkReports(const Trace& t, const Analysis& A) {
 			}
 			if (e.kind == EV_NOTE && e.method == NOTE_APPEND_RESULT && e.a) r.everAppended = true;
 			if (e.kind == EV_CB && e.who == WHO_SELF) {
-				if (e.method == M_EXIT && e.state != NOID) { r.succS &= ~bit(e.state); r.failS &= ~bit(e.state); }
+				if (e.method == M_EXIT && e.state != NOID) { r.succS &= ~bit(e.state); r.failS &= ~bit(e.state); exitPending = e.state; }
 				if (e.method == M_EXIT && e.state == NOID) { r = Reports{}; }   // deactivation
 			}
 			if (e.kind == EV_NOTE && e.method == NOTE_AFTER && isOutcome(e.d)) { /* cleared when the outcome callback returns */ }
 		}
+		if (exitPending >= 0) { r.succS &= ~bit(uint8_t(exitPending)); r.failS &= ~bit(uint8_t(exitPending)); }
 		if (cycle && w.plan.outcome && !outcomeCleared) r.clearAll();
 		if (!t.info.head && (w.type == WT_TEARDOWN || (w.type == WT_OP && w.code == OP_EXIT))) r = Reports{};
 		if (w.type == WT_TEARDOWN) r = Reports{};
@@ -476,10 +483,15 @@ void c16(const Trace& t, const Analysis& A, Verdict& V) {
 
 // ------------------------------------------------------------------------------------------------
 // C17: copies are equivalent (fill independence is decided by the driver comparing digests)
+// everything a transition shows, also when it is empty (an empty request / history entry can still expose a payload through payload())
+static bool sameRaw(const TrV& a, const TrV& b) {
+	return a.valid == b.valid && a.hasPay == b.hasPay && (!a.hasPay || (a.seed == b.seed && a.exact == b.exact)) && (!a.valid || (a.origin == b.origin && a.dest == b.dest));
+}
 static bool sameObs(const Trace& t, const Ev& a, const Ev& b, bool withSerial, std::string& why) {
 	if (a.mAct != b.mAct || a.mActMask != b.mActMask) { why = F("active state %d vs %d", sidOf(a.mAct), sidOf(b.mAct)); return false; }
 	if (a.mManual != b.mManual) { why = "isActive()"; return false; }
 	if (!(a.prev == b.prev)) { why = F("previousTransition() %s vs %s", trStr(a.prev).c_str(), trStr(b.prev).c_str()); return false; }
+	if (!sameRaw(a.prev, b.prev)) { why = F("previousTransition().payload(): the (empty) history entry exposes %s in one and %s in the other", a.prev.hasPay ? F("payload %u", a.prev.seed).c_str() : "no payload", b.prev.hasPay ? F("payload %u", b.prev.seed).c_str() : "no payload"); return false; }
 	if (!sameSeq(snap(t, a), snap(t, b))) { why = F("plan %s vs %s", seqStr(snap(t, a)).c_str(), seqStr(snap(t, b)).c_str()); return false; }
 	if (withSerial && (a.hasSerial != b.hasSerial || a.serial != b.serial)) { why = "serialized form"; return false; }
 	if (a.hasLocal && b.hasLocal && a.localSum != b.localSum) { why = "data members of the state objects (read through access<T>())"; return false; }
@@ -525,6 +537,7 @@ void c17(const Trace& t, const Analysis& A, Verdict& V) {
 			if (same && x.kind == EV_CB) {
 				if (x.sid != y.sid || x.cAct != y.cAct) { same = false; why = "control view"; }
 				else if (!(x.req == y.req)) { same = false; why = F("control.request() %s vs %s", trStr(x.req).c_str(), trStr(y.req).c_str()); }
+				else if (!sameRaw(x.req, y.req)) { same = false; why = "control.request().payload() of the (empty) request differs between copy and original"; }
 				else if (!(x.pend == y.pend) || !(x.cur == y.cur)) { same = false; why = "pending/current transition"; }
 				else if (x.ctxOk != y.ctxOk || x.evtOk != y.evtOk || x.thisOk != y.thisOk) { same = false; why = "context/event/this identity"; }
 				else if (x.local != y.local) { same = false; why = F("the state object's own data: its callback counter reads %u in the copy and %u in the original", x.local, y.local); }
